@@ -425,6 +425,7 @@ type checker struct {
 
 	results      []*unitResult
 	inconclusive []string
+	partial      []string // thorough tier: units whose exploration stopped at the time budget
 	engineErrors []string
 	violations   []string // VIOLATION lines
 	knownLines   []string
@@ -586,8 +587,16 @@ func (c *checker) runUnit(u *unitCfg, entryOnly string) {
 		for _, p := range ex.problems {
 			c.inconclusive = append(c.inconclusive, key+": "+p+fmt.Sprintf(" (x%d)", ex.problemSet[p]))
 		}
+		truncated := false
 		if ex.timedOut {
-			c.inconclusive = append(c.inconclusive, key+": exploration exceeded its time budget")
+			if c.tier == "thorough" {
+				// the thorough tier explores as far as its time budget reaches: the verdict covers the paths completed
+				truncated = true
+				c.partial = append(c.partial, fmt.Sprintf("%s: time budget of %d s used up after %d completed paths; %d queued path prefixes unexplored (outside the verdict of this run)",
+					key, tc.MaxSeconds, ex.paths, len(ex.work)+1))
+			} else {
+				c.inconclusive = append(c.inconclusive, key+": exploration exceeded its time budget")
+			}
 		}
 		if n := sum(ex.assertUnknown); n > 0 {
 			c.inconclusive = append(c.inconclusive, fmt.Sprintf("%s: %d assertion queries returned unknown", key, n))
@@ -596,7 +605,7 @@ func (c *checker) runUnit(u *unitCfg, entryOnly string) {
 			c.inconclusive = append(c.inconclusive, key+": no cover point reached (vacuous harness?)")
 		}
 		for lbl, n := range ex.coverCount {
-			if n == 0 {
+			if n == 0 && !truncated {
 				c.inconclusive = append(c.inconclusive, key+": cover point "+lbl+" has no feasible witness")
 			}
 		}
@@ -747,6 +756,9 @@ func (c *checker) finish(wall float64, writeEvidence bool) int {
 	for _, e := range c.inconclusive {
 		fmt.Println("INCONCLUSIVE:", e)
 	}
+	for _, e := range c.partial {
+		fmt.Println("PARTIAL:", e)
+	}
 	if writeEvidence {
 		if err := c.writeEvidence(wall); err != nil {
 			fmt.Fprintln(os.Stderr, "evidence:", err)
@@ -818,6 +830,8 @@ func (c *checker) writeEvidence(wall float64) error {
 		"solver_s":     float64(gStats.nanos) / 1e9,
 		"solver":       c.solver,
 		"inconclusive": c.inconclusive,
+		"partial_units": c.partial,
+		"exhaustive":    len(c.partial) == 0 && len(c.inconclusive) == 0,
 		"engine_errors": c.engineErrors,
 		"known_findings_reported": c.knownLines,
 		"encoding":     "go/ssa of /repo working tree (+ harness overlay), regenerated on this run",
